@@ -1,0 +1,37 @@
+//go:build verif
+
+// Contracts for the acv verifier (/verif). Comment-only file: no executable code.
+
+package acrablock
+
+//@ spec keyLenOf(b []byte) int = int(le16(b[16:18]))
+//@ spec validBlock(b []byte) bool = 18 <= len(b) && 18 + keyLenOf(b) <= len(b)
+
+//@ func ExtractAcraBlockFromData(data []byte) (n int, block AcraBlock, err error)
+//@   props C01 C03 C14
+//@   safety
+//@   ensures bounds: err == nil ==> AcraBlockMinSize <= n && n <= len(data)
+//@   ensures prefix: err == nil ==> len(block) == n && sameslice(block, data[:n])
+//@   ensures length-field: err == nil ==> le64(data[4:12]) + 4 == uint64(n)
+//@   ensures key-fits: err == nil ==> validBlock(block)
+//@   ensures on-error: err != nil ==> n == 0 && block == nil
+//@   modifies nothing
+
+//@ func NewAcraBlockFromData(data []byte) (block AcraBlock, err error)
+//@   props C01 C03 C14
+//@   safety
+//@   ensures err == nil ==> validBlock(block) && sameslice(block, data[:len(block)])
+//@   ensures err != nil ==> block == nil
+
+//@ func (b AcraBlock) EncryptedDataEncryptionKeyLength() (n int)
+//@   props C01 C03 C14
+//@   safety
+//@   requires 18 <= len(b)
+//@   ensures n == keyLenOf(b) && 0 <= n && n <= 65535
+//@   modifies nothing
+
+//@ func (b AcraBlock) Decrypt(keys [][]byte, context []byte) (out []byte, err error)
+//@   props C01 C02 C03 C14
+//@   safety
+//@   requires validBlock(b)
+//@   ensures err != nil ==> out == nil
